@@ -50,7 +50,7 @@ def run(chk, scratch):
             if p.returncode != 0 or not os.path.exists(os.path.join(d, name)):
                 raise runner.Inconclusive("could not build %s with src/gtf2db.py: %s" % (name, p.stdout.decode()[-300:]))
         bam = os.path.join(d, "r.bam")
-        base = ["-d", "nanopore", "-r", os.path.join(d, "g.fa"), "-t", "2", "-p", pipeline.PREFIX, "--no_gzip", "--force"]
+        base = ["-d", "nanopore", "-r", os.path.join(d, "g.fa"), "-t", "2", "-p", pipeline.PREFIX, "--no_gzip", "--force", "--count_exons"]
         # BAM partitions
         mapped = [r for r in w.reads if not (r.flag & 4)]
         unmapped = [r for r in w.reads if r.flag & 4]
@@ -128,7 +128,8 @@ def run(chk, scratch):
                                   "world=%d: %s %s between the reference run and %s" % (seed, rel, why, name), wit)
             else:
                 # several BAMs switch on file-name grouping and technical replicas: only assignments, BED and ungrouped reference tables
-                for suffix in ("read_assignments.tsv", "corrected_reads.bed", "gene_counts.tsv", "transcript_counts.tsv", "gene_tpm.tsv", "transcript_tpm.tsv"):
+                for suffix in ("read_assignments.tsv", "corrected_reads.bed", "gene_counts.tsv", "transcript_counts.tsv", "gene_tpm.tsv", "transcript_tpm.tsv",
+                               "exon_counts.tsv", "intron_counts.tsv"):
                     pa, pb = os.path.join(a_dir, "%s.%s" % (pipeline.PREFIX, suffix)), os.path.join(b_dir, "%s.%s" % (pipeline.PREFIX, suffix))
                     if not parse.exists(pb):
                         chk.violation("alignment-partition-changes-output:%s:missing:%s" % (name, suffix), "world=%d: %s missing" % (seed, suffix), wit)
